@@ -73,6 +73,12 @@ class ContinuousDiscretizer(BaseDiscretizer):
 
     @extend_docstring(BaseDiscretizer.fit)
     def fit(self, X: DataFrame, y: Series = None) -> None:  # pylint: disable=W0222
+        # a fitted discretizer is not fitted anew (checked first, so that a refused call modifies nothing)
+        assert not self.is_fitted, (
+            " - [Discretizer] This Discretizer has already been fitted. Fitting it anew could break "
+            "established orders. Please initialize a new one."
+        )
+
         if self.verbose:  # verbose if requested
             print(f" - [ContinuousDiscretizer] Fit {str(self.quantitative_features)}")
 
